@@ -410,6 +410,14 @@ def err_roundtrip_message(h):
     roundtrip_plain(h, ERR + ":AcErrorInformationEncoder", ERR + ":AcErrorInformationDecoder", msg, sub_header(SUB_ERR), SUB_ERR)
 
 
+@oset("at4.xFF10.roundtrip.message-any-length", ["C03", "C04"], [ERR + ":AcErrorInformationEncoder.size", ERR + ":AcErrorInformationEncoder.encode",
+                                                                 ERR + ":AcErrorInformationDecoder.decode"],
+      assumptions=["str modelled by its UTF-8 bytes (a symbolic-length buffer); bytes.decode raises exactly on invalid UTF-8"])
+def err_roundtrip_any(h):
+    from contracts.codec import roundtrip_err_info_any_length
+    roundtrip_err_info_any_length(h, ERR, sub_header(SUB_ERR), SUB_ERR)
+
+
 @oset("at4.xFF10.roundtrip.empty-string", ["C03"], [ERR + ":AcErrorInformationEncoder.size", ERR + ":AcErrorInformationEncoder.encode",
                                                      ERR + ":AcErrorInformationDecoder.decode"])
 def err_roundtrip_empty(h):
